@@ -18,7 +18,7 @@ THEOREMS = ['Pfst.C01.text_before', 'Pfst.C01.text_after', 'Pfst.C01.text_new', 
 # separator / delimiter primitives (`_trail_sep`, `_maybe_ins_sep`, `_fix_Tuple`): lean/Pfst/Props/C01b.lean, harness/c01b.py
 THEOREMS += ['Pfst.C01b.target_iff', 'Pfst.C01b.trailSep_spec', 'Pfst.C01b.trailSep_none', 'Pfst.C01b.trailSep_del_local',
              'Pfst.C01b.maybeInsSep_post', 'Pfst.C01b.maybeInsSep_local', 'Pfst.C01b.fixTuple_singleton',
-             'Pfst.C01b.fixTuple_delimited']
+             'Pfst.C01b.fixTuple_delimited', 'Pfst.C01b.fixTuple_delimits_partial', 'Pfst.C01b.fixTuple_empty']
 RULE = ('a FIXED corpus of programs (hand-written snippets covering every node type + generated programs + layout mutators; '
         'independent of VERIF_SEED so that the unchanged tree is triaged once) is edited by seed-determined histories of '
         'structured edits: replace / attribute assignment / remove / cut / del item / insert / append / put_slice / view slice '
